@@ -499,6 +499,10 @@ def extract_unitary_guard(repo, lib):
                 and any(_u(st.value) == f"np.asarray({a})" for a in tr.arr):
             tr.arr.add(st.targets[0].id)
             continue
+        if isinstance(st, ast.If) and not st.orelse and any(
+                _u(st) == f"if {a}.dtype in (np.float16, np.float32, np.complex64):\n"
+                          f"    {a} = {a}.astype(np.result_type({a}.dtype, np.float64))" for a in tr.arr):
+            continue                    # widening to double precision: every value is kept exactly (no step in the model)
         if isinstance(st, ast.If) and len(st.body) == 1 and isinstance(st.body[0], (ast.Raise, ast.Expr, ast.Pass)) \
                 and not st.orelse and _mentions(st.test, tr.arr):
             steps.append(_if_step(st, tr, rel))
@@ -1867,6 +1871,1045 @@ def non_numeric_probe(ctx):
                      + "; ".join(f"{k}: {v}" for k, v in sorted(seen.items())))
 
 
+# ==================================================================================================
+# 3. input-diversity pass: element types x scale structure x sign / phase x call forms x sizes
+# ==================================================================================================
+#
+# The property is about REJECTION, so every form family is applied to INVALID inputs (must raise before anything is
+# returned, a host circuit handed to a static helper must stay empty, the caller's vector / matrix / dict must not be
+# mutated) and to their VALID TWINS (validation must not reject them: a validator that starts refusing int lists, tuples,
+# real arrays or a particular option is as wrong as one that accepts garbage).
+#
+# form  x  entry point                                  -> where generated
+# ---------------------------------------------------------------------------------------------------------------------
+# 1 element types   8 dense classes                     -> div_dense_exact x DIV_FORMS (c128, f64, int64, f32, c64, bool, negzero,
+#                                                          list, int-list, tuple, npscalar-list, npint-list, pybool-list,
+#                                                          mixed-list) through the plain constructor; NaN / inf at first / middle /
+#                                                          last as real NaN, nan+0j, 0+nanj, Python float('nan') in a list
+#                                                          (div_dense_nonfinite); column / row vector, 3-D, ragged (div_dense_shapes);
+#                                                          an inexactly normalised float32 vector (div_float32_inexact)
+#                   7 one-qubit gate classes (+MT list) -> div_u2_exact x forms (+ rows-of-arrays) through every constructor variant
+#                   unitary()                           -> div_unitary_exact x forms x (qsd, csd, qr, qsd+iso1, qsd+iso2)
+#                   isometry.decompose                  -> div_iso_exact x forms x (ccd, csd, knill)
+# 2 scale of defect dense                               -> div_dense_scaled: norm^2 - 1 = +-1e-2, +-1e-4, +-1e-6 carried by one heavy
+#                                                          amplitude / a light tail (n = 16, 32) / the first / the last entry;
+#                                                          valid twins: heavy head + light tail exactly normalised
+#                   unitary / isometry / u2             -> div_matrix_scaled: first / middle / last column (row for check_u2) norm off by
+#                                                          +-1e-2, +-1e-4; adjacent / first-last pair with real / imaginary overlap 1e-2,
+#                                                          1e-4 (unit diagonal); defect only in the lower-right block; one row times 2;
+#                                                          |det| = 1 non-unitary; 16x16 once
+# 3 sign / phase    all                                 -> all-negative, purely imaginary, valid x 1.1i, valid x -1.1 (invalid);
+#                                                          -v, i v, per-entry phases +-1, +-i (valid twins); U(2) with det = -1, i,
+#                                                          exp(0.3i) as int / real / complex given to the SU(2)-only classes
+#                                                          (LdMcSpecialUnitary judged: must raise; Ldmcsu / MultiTargetMCSU2 observed)
+# 4 call forms      dense                               -> DIV_DENSE_CALLS: label, opt_params None / {} / each key alone / full /
+#                                                          positional, static X.initialize on an exact host (qubits=None) and on a
+#                                                          larger two-register host with a permuted non-contiguous qubit list as
+#                                                          ints / Qubit objects / register slice, with and without every option,
+#                                                          after a valid construction, with a re-used (edited) options dict
+#                   gates                               -> DIV_U2_CALLS: num_controls 0, 1, 2, 3, 5 (MCU 8, 9), keyword / positional,
+#                                                          ctrl_state None / '000' / '101' / '111', up_to_diagonal, error, static
+#                                                          helper (ldmcu, ldmcsu, qdmcu, mcg, mcu with error 0 and > 0,
+#                                                          multi_target_mcsu2 list / single) on a larger host, permuted ints / Qubits /
+#                                                          registers; MultiTargetMCSU2 lists of 1, 2, 3 with the input first / middle / last
+#                   unitary()                           -> DIV_UNITARY_CALLS: positional / keyword decomposition, iso 0 / 1 / 2,
+#                                                          apply_a2, everything at once, cnot_count(method='exact')
+#                   isometry.decompose                  -> DIV_ISO_CALLS: positional / keyword scheme, cnot_count(method='exact')
+# 5 sizes           dense 1, 2, 3, 5, 6, 7, 9, 12 / n = 1..5; matrices 1x1, 2x2, 4x4, 8x8, 16x16; isometries 2x1 .. 8x8, 4x3, 4x8, 6x2
+#
+# Tie: the NUMERIC content of every diversity input goes through `check_case` (plain constructor / function, complex128
+# ndarray): decision of the real code vs the Lean validator model on the same doubles.  Element types, call forms, hosts,
+# option dictionaries are outside the model (it sees an array of doubles): oracle only.
+#
+# Unsupported forms (counted, not judged for valid twins; an INVALID input in such a form must still raise): nested lists /
+# tuples for the classes that call `check_u2(unitary)` on the raw argument (Ldmcu, Qdmcu, Mcg, MCU: documented "numpy.ndarray")
+# and for `decompose(isometry: np.ndarray)` (-> AttributeError); numpy bool arrays for the dense initializers
+# (validate_parameter: np.bool_ is not a number -> TypeError).
+
+DIV_ND_FORMS = ("c128", "f64", "int64", "f32", "c64", "bool", "negzero")
+DIV_SEQ_FORMS = ("list", "int-list", "tuple", "npscalar-list", "npint-list", "pybool-list", "mixed-list", "rows-of-arrays")
+DIV_FORMS = DIV_ND_FORMS + DIV_SEQ_FORMS
+
+
+def _div_exact32(c):
+    import numpy as np
+    with np.errstate(all="ignore"):
+        b = c.astype(np.complex64).astype(complex)
+    return bool(np.array_equal(c.real, b.real, equal_nan=True) and np.array_equal(c.imag, b.imag, equal_nan=True))
+
+
+def _div_nest(x, leaf, seq):
+    if x.ndim == 0:
+        return leaf(x.item())
+    return seq([_div_nest(y, leaf, seq) for y in x])
+
+
+def _div_form(arr, form):
+    """The same VALUES in another element type; None where the form cannot carry them exactly."""
+    import numpy as np
+    a = np.asarray(arr)
+    c = a.astype(complex)
+    with np.errstate(all="ignore"):
+        is_real = not np.any(c.imag != 0) and not np.any(np.signbit(c.imag))
+        finite = bool(np.all(np.isfinite(c.real)) and np.all(np.isfinite(c.imag)))
+        is_int = is_real and finite and bool(np.all(c.real == np.round(c.real))) and bool(np.all(np.abs(c.real) < 2 ** 31))
+        is_bool = is_int and bool(np.all((c.real == 0) | (c.real == 1)))
+    neg0 = bool(np.any(np.signbit(c.real) & (c.real == 0)))
+
+    def pyleaf(z):
+        return float(z.real) if is_real else complex(z)
+    if form == "c128":
+        return c.copy()
+    if form == "f64":
+        return c.real.copy() if is_real else None
+    if form == "int64":
+        return c.real.astype(np.int64) if is_int and not neg0 else None
+    if form == "f32":
+        return c.real.astype(np.float32) if is_real and _div_exact32(c) else None
+    if form == "c64":
+        return c.astype(np.complex64) if _div_exact32(c) else None
+    if form == "bool":
+        return (c.real != 0) if is_bool and not neg0 and c.size else None
+    if form == "negzero":
+        if not is_real or not np.any(c.real == 0):
+            return None
+        r = c.real.copy()
+        r[r == 0] = -0.0
+        return r
+    if form == "list":
+        return _div_nest(c, pyleaf, list)
+    if form == "tuple":
+        return _div_nest(c, pyleaf, tuple)
+    if form == "int-list":
+        return _div_nest(c, lambda z: int(z.real), list) if is_int and not neg0 else None
+    if form == "pybool-list":
+        return _div_nest(c, lambda z: bool(z.real), list) if is_bool and not neg0 and c.size else None
+    if form == "npscalar-list":
+        return _div_nest(c, (lambda z: np.float64(z.real)) if is_real else (lambda z: np.complex128(z)), list)
+    if form == "npint-list":
+        return _div_nest(c, lambda z: np.int64(z.real), list) if is_int and not neg0 else None
+    if form == "mixed-list":
+        # leaves cycle through Python int / float / complex and numpy float64 / float32 / complex128 scalars
+        if not c.size or not finite:
+            return None
+        cnt = [0]
+
+        def leaf(z):
+            i = cnt[0]
+            cnt[0] += 1
+            integral = z.imag == 0 and z.real == round(z.real) and not (z.real == 0 and math.copysign(1, z.real) < 0)
+            ex32 = z.imag == 0 and float(np.float32(z.real)) == z.real
+            opts = [int(z.real) if integral else (float(z.real) if z.imag == 0 else complex(z)),
+                    float(z.real) if z.imag == 0 else complex(z), complex(z),
+                    np.float64(z.real) if z.imag == 0 else np.complex128(z),
+                    np.float32(z.real) if ex32 else np.complex128(z), np.complex128(z)]
+            return opts[i % len(opts)]
+        return _div_nest(c, leaf, list)
+    if form == "rows-of-arrays":
+        return [np.array(r) for r in (c.real if is_real else c)] if c.ndim == 2 and c.shape[0] else None
+    raise ValueError(form)
+
+
+def _div_snap(o):
+    """structural snapshot of a caller-owned object (to see that the library did not write into it)"""
+    import numpy as np
+    if isinstance(o, np.ndarray):
+        return ("nd", str(o.dtype), o.shape, o.tobytes())
+    if isinstance(o, (list, tuple)):
+        return (type(o).__name__, tuple(_div_snap(x) for x in o))
+    if isinstance(o, dict):
+        return ("dict", tuple((k, _div_snap(v)) for k, v in o.items()))
+    return (type(o).__name__, repr(o))
+
+
+def _div_supported(name, form):
+    """does the library claim to take this element-type form at this entry point?  (see the header comment)"""
+    kind = KIND_OF[name]
+    nd = form in DIV_ND_FORMS
+    if kind == "dense":
+        return form != "bool"
+    if kind == "unitary":
+        return True
+    if kind == "isometry":
+        return nd
+    cls = _short(name).split("[")[0]
+    return True if cls in ("Ldmcsu", "LdMcSpecialUnitary", "MultiTargetMCSU2") else nd
+
+
+# ---------------------------------------------------------------------------------------------- numeric content
+
+def div_dense_exact():
+    """(label, vector): entries 0, +-1, +-1/2, +-i, ... exactly representable in every dtype: all element-type forms apply"""
+    h = 0.5
+    inv = [("int [1,1,0,0]", [1, 1, 0, 0]), ("int [2,0,0,0]", [2, 0, 0, 0]), ("int [0,0,0,0]", [0, 0, 0, 0]), ("int [1,1]", [1, 1]),
+           ("int [3,4]", [3, 4]), ("all-negative [-1,-1,0,0]", [-1, -1, 0, 0]), ("halves norm 3/4", [h, h, h, 0]),
+           ("purely imaginary [i,i,0,0]", [1j, 1j, 0, 0]), ("halves len8 norm 2", [h] * 8), ("two ones len8", [1, 0, 0, 0, 0, 0, 0, 1]),
+           ("basis times 2i", [0, 2j, 0, 0]), ("phases 1,-1,i,-i norm 4", [1, -1, 1j, -1j]), ("int [0,0]", [0, 0]),
+           ("len1 [1]", [1]), ("len3 [1,0,0]", [1, 0, 0]), ("len5 halves", [h, h, h, h, 0]), ("len6 halves", [h, h, h, h, 0, 0]),
+           ("len7 basis", [0, 0, 0, 0, 0, 0, 1]), ("len9 basis", [1] + [0] * 8), ("len12 basis", [0] * 11 + [1]), ("empty", [])]
+    val = [("valid basis int [0,1,0,0]", [0, 1, 0, 0]), ("valid [0,-1]", [0, -1]), ("valid [1,0]", [1, 0]), ("valid [-i,0]", [-1j, 0]),
+           ("valid signed halves", [h, h, -h, h]), ("valid all-negative halves", [-h] * 4),
+           ("valid halves phases 1,i,-1,-i", [h, h * 1j, -h, -h * 1j]), ("valid imaginary basis len8", [0, 0, 0, 0, 0, 0, 1j, 0]),
+           ("valid halves + zeros len8", [h, h, h, h, 0, 0, 0, 0])]
+    return inv + val
+
+
+def div_dense_scaled(ctx, nprng):
+    """defect norm^2 - 1 = +-d carried by one heavy amplitude / a light tail / the first / the last entry; sign / phase families"""
+    import numpy as np
+    out = []
+    for n in (16, 32):
+        hpos = ctx.rng.choice((0, n - 1, ctx.rng.randrange(1, n - 1)))
+        tail = np.exp(nprng.uniform(math.log(1e-6), math.log(1e-3), n)) * np.exp(1j * nprng.uniform(0, 2 * math.pi, n))
+        tail[hpos] = 0.0
+        tail = tail / math.sqrt(float(np.sum(np.abs(tail) ** 2)))          # unit mass, moduli spread over three decades
+        for d in (1e-2, 1e-4, 1e-6):
+            for sg in (1, -1):
+                head2 = 1.0 if sg > 0 else 1.0 - 2 * d
+                v = math.sqrt(d) * tail
+                v[hpos] = math.sqrt(head2)
+                out.append((f"light tail mass {d:g} -> norm^2 1{'+' if sg > 0 else '-'}{d:g} len{n} head@{hpos}", v))
+            v = math.sqrt(d) * tail
+            v[hpos] = math.sqrt(1.0 - d) * np.exp(1j * ctx.rng.uniform(0, 6.28))
+            out.append((f"valid heavy head + light tail mass {d:g} len{n} head@{hpos}", _renorm(v)))
+    for n in (2, 4, 8):
+        base = _renorm(_unit(n, nprng))
+        k = int(np.argmax(np.abs(base)))
+        for d in (1e-2, 1e-4):
+            for sg in (1, -1):
+                tag = f"{'+' if sg > 0 else '-'}{d:g}"
+                for pos, name in ((k, "heaviest"), (0, "first"), (n - 1, "last")):
+                    w = base.copy()
+                    a2 = abs(w[pos]) ** 2
+                    if a2 + sg * d <= 1e-3:
+                        continue
+                    w[pos] = w[pos] * math.sqrt((a2 + sg * d) / a2)
+                    out.append((f"defect {tag} in the {name} entry only len{n}", w))
+        r_ = _renorm(np.abs(_unit(n, nprng, real=True)) + 0.05)
+        out += [(f"all-negative norm^2 1.21 len{n}", -1.1 * r_), (f"valid times 1.1i len{n}", 1.1j * base),
+                (f"valid times -1.1 len{n}", -1.1 * base), (f"purely imaginary norm^2 0.81 len{n}", 0.9j * r_),
+                (f"valid all-negative len{n}", -r_), (f"valid times -1 len{n}", -base), (f"valid times i len{n}", 1j * base),
+                (f"valid purely imaginary len{n}", 1j * r_), (f"valid complex with zero imaginary parts len{n}", r_.astype(complex)),
+                (f"valid equal moduli phases +-1,+-i len{n}", _renorm(np.array([1, 1j, -1, -1j] * n)[:n] / math.sqrt(n)))]
+    return out
+
+
+def div_dense_nonfinite(ctx):
+    """NaN / inf at the first / middle / last position; real NaN, nan+0j, 0+nanj; the other entries form a unit vector"""
+    import numpy as np
+    out = []
+    nan, inf = float("nan"), float("inf")
+    for n in (2, 4, 8):
+        for pos, pname in ((0, "first"), (n // 2, "middle"), (n - 1, "last")):
+            if n == 2 and pname == "middle":
+                continue
+            other = (pos + 1) % n
+            for vname, val in (("nan", nan), ("nan+0j", complex(nan, 0.0)), ("0+nanj", complex(0.0, nan)), ("nan+nanj", complex(nan, nan)),
+                               ("inf", inf), ("-inf", -inf), ("0+infj", complex(0.0, inf))):
+                if n == 8 and vname in ("nan+nanj", "-inf", "0+infj"):
+                    continue
+                v = np.zeros(n, dtype=complex)
+                v[other] = 1.0
+                v[pos] = val
+                out.append((f"{vname} at the {pname} entry len{n}", v))
+        out.append((f"all nan len{n}", np.full(n, nan)))
+    return out
+
+
+def div_dense_shapes():
+    """2-D / 3-D / ragged objects where a vector is expected (oracle only: outside the Lean model's vector input)"""
+    import numpy as np
+    return [("column vector 2x1 unit", np.array([[1.0], [0.0]])), ("column vector 4x1 norm 2", np.array([[1.0], [1.0], [0.0], [0.0]])),
+            ("row vector 1x2 unit", np.array([[1.0, 0.0]])), ("row vector 1x4 unit", np.array([[0.0, 1.0, 0.0, 0.0]])),
+            ("matrix 2x2 identity", np.eye(2)), ("matrix 4x4 identity", np.eye(4)), ("matrix 2x2 halves", np.full((2, 2), 0.5)),
+            ("3-D 2x1x1", np.array([[[1.0]], [[0.0]]])), ("ragged", ("RAW", [[1.0, 0.0], [1.0]])), ("ragged-2", ("RAW", [1.0, [0.0]])),
+            ("nested list column", ("RAW", [[0.0], [1.0]])), ("vector of length-2 tuples", ("RAW", [(1.0, 0.0), (0.0, 0.0)]))]
+
+
+def _blk(a, b):
+    import numpy as np
+    out = np.zeros((a.shape[0] + b.shape[0], a.shape[1] + b.shape[1]), dtype=complex)
+    out[:a.shape[0], :a.shape[1]] = a
+    out[a.shape[0]:, a.shape[1]:] = b
+    return out
+
+
+def div_u2_exact():
+    import numpy as np
+    h = 0.5
+    inv = [("int shear [[1,1],[0,1]]", [[1, 1], [0, 1]]), ("int diag(2,1)", [[2, 0], [0, 1]]), ("int diag(1,2)", [[1, 0], [0, 2]]),
+           ("diag(1,1/2)", [[1, 0], [0, h]]), ("diag(1/2,1)", [[h, 0], [0, 1]]), ("int projector diag(1,0)", [[1, 0], [0, 0]]),
+           ("int projector diag(0,1)", [[0, 0], [0, 1]]), ("int all ones", [[1, 1], [1, 1]]), ("int zero", [[0, 0], [0, 0]]),
+           ("int hadamard unnormalised", [[1, 1], [1, -1]]), ("halves hadamard rows norm^2 1/2", [[h, h], [h, -h]]), ("int 2X", [[0, 2], [2, 0]]),
+           ("complex-int [[1,i],[i,1]] orthogonal rows norm^2 2", [[1, 1j], [1j, 1]]), ("diag(2,1/2) |det|=1", [[2, 0], [0, h]]),
+           ("antidiag(2,1/2) |det|=1", [[0, 2], [h, 0]]), ("2i identity", [[2j, 0], [0, 2j]]), ("all-negative -2 identity", [[-2, 0], [0, -2]]),
+           ("diag(1,2i)", [[1, 0], [0, 2j]]), ("int lower shear [[1,0],[1,1]]", [[1, 0], [1, 1]]),
+           ("shape int eye3", np.eye(3)), ("shape int eye4", np.eye(4)), ("shape 1x2", [[1, 0]]), ("shape 2x1", [[1], [0]]),
+           ("shape 1-D [1,0,0,1]", [1, 0, 0, 1]), ("shape 2x3", [[1, 0, 0], [0, 1, 0]]), ("shape 3x2", [[1, 0], [0, 1], [0, 0]]),
+           ("shape 1x1", [[1]]), ("shape 2x2x2", np.stack([np.eye(2), np.eye(2)]))]
+    val = [("valid int X", [[0, 1], [1, 0]]), ("valid int Z", [[1, 0], [0, -1]]), ("valid int iY", [[0, 1], [-1, 0]]),
+           ("valid int -iY", [[0, -1], [1, 0]]), ("valid Y", [[0, -1j], [1j, 0]]), ("valid S", [[1, 0], [0, 1j]]),
+           ("valid diag(i,-i)", [[1j, 0], [0, -1j]]), ("valid iX", [[0, 1j], [1j, 0]]), ("valid i identity", [[1j, 0], [0, 1j]]),
+           ("valid int -identity", [[-1, 0], [0, -1]]), ("valid int identity", [[1, 0], [0, 1]])]
+    return [(l, np.array(m, dtype=complex)) for l, m in inv + val]
+
+
+def div_unitary_exact():
+    import numpy as np
+    I2, sh = np.eye(2), np.array([[1.0, 1.0], [0.0, 1.0]])
+    cnot = np.eye(4)[[0, 1, 3, 2]]
+    out = []
+    for n in (4, 8):
+        perm = np.eye(n)[[(3 * i + 1) % n for i in range(n)]] if n == 8 else cnot
+        m = n // 2
+        out += [(f"int kron(I,shear) {n}x{n}", np.kron(np.eye(n // 2), sh)), (f"int lower-right block shear only {n}x{n}", _blk(np.eye(n - 2), sh)),
+                (f"int first column doubled {n}x{n}", perm @ np.diag([2.0] + [1.0] * (n - 1))),
+                (f"int middle column doubled {n}x{n}", perm @ np.diag([1.0] * m + [2.0] + [1.0] * (n - m - 1))),
+                (f"int last column doubled {n}x{n}", perm @ np.diag([1.0] * (n - 1) + [2.0])),
+                (f"halves: one row halved {n}x{n}", np.diag([1.0] * (n - 1) + [0.5]) @ perm),
+                (f"int hadamard-unnormalised x I {n}x{n}", np.kron(np.array([[1.0, 1.0], [1.0, -1.0]]), np.eye(n // 2))),
+                (f"diag(2,1/2,1..) |det|=1 {n}x{n}", np.diag([2.0, 0.5] + [1.0] * (n - 2))),
+                (f"int projector {n}x{n}", np.diag([1.0] * (n - 1) + [0.0])), (f"int all ones {n}x{n}", np.ones((n, n))),
+                (f"int zero {n}x{n}", np.zeros((n, n))), (f"2i times permutation {n}x{n}", 2j * perm),
+                (f"unit columns not orthogonal (halves) {n}x{n}", np.kron(np.full((4, 4), 0.5), np.eye(n // 4))),
+                (f"int last column repeated {n}x{n}", perm @ (np.eye(n) - np.outer(np.eye(n)[n - 1], np.eye(n)[n - 1]) + np.outer(np.eye(n)[n - 2], np.eye(n)[n - 1])))]
+    p16 = np.eye(16)[[(5 * i + 3) % 16 for i in range(16)]]
+    out += [("int last column doubled 16x16", p16 @ np.diag([1.0] * 15 + [2.0])), ("int lower-right block shear only 16x16", _blk(np.eye(14), sh)),
+            ("int shear 2x2", sh), ("int diag(1,2) 2x2", np.diag([1.0, 2.0])), ("halves hadamard 2x2", np.full((2, 2), 0.5) * [[1, 1], [1, -1]]),
+            ("shape int eye3", np.eye(3)), ("shape int eye6", np.eye(6)), ("shape int 2x3", np.eye(3)[:2]), ("shape int 4x3", np.eye(4)[:, :3]),
+            ("shape int 2x4 wide", np.eye(4)[:2]), ("shape int 6x2", np.eye(6)[:, :2]), ("shape 1-D [1,0,0,1]", np.array([1.0, 0, 0, 1])),
+            ("shape 1-D len2", np.array([1.0, 0.0])), ("shape 3-D 2x2x2", np.stack([I2, I2])), ("shape column 4x1", np.eye(4)[:, :1]),
+            ("shape row 1x4", np.eye(4)[:1]), ("int 2 times 1x1", np.array([[2.0]]))]
+    hh = np.kron(np.array([[1.0, 1.0], [1.0, -1.0]]), np.array([[1.0, 1.0], [1.0, -1.0]])) / 2
+    out += [("valid int X 2x2", np.eye(2)[[1, 0]]), ("valid int Z 2x2", np.diag([1.0, -1.0])), ("valid int identity 2x2", I2),
+            ("valid i identity 2x2", 1j * I2), ("valid int CNOT 4x4", cnot), ("valid halves H(x)H 4x4", hh),
+            ("valid i SWAP 4x4", 1j * np.eye(4)[[0, 2, 1, 3]]), ("valid diag(1,-1,i,-i) 4x4", np.diag([1, -1, 1j, -1j])),
+            ("valid int -identity 4x4", -np.eye(4)), ("valid int permutation 8x8", np.eye(8)[[(3 * i + 1) % 8 for i in range(8)]])]
+    return [(l, np.array(m, dtype=complex)) for l, m in out]
+
+
+def div_iso_exact():
+    import numpy as np
+    e4, e8 = np.eye(4), np.eye(8)
+    a = np.array([0.5, 0.5, 0.5, 0.5])
+    b = np.array([0.5j, 0.5j, 0.5, -0.5])            # <a, b> = i/2 exactly: Re(V^dagger V) = I although V^dagger V != I
+    c = np.array([0.5, -0.5, 0.5, -0.5])
+    out = [("int shear 4x2", [[1, 1], [0, 1], [0, 0], [0, 0]]), ("int second column doubled 4x2", [[1, 0], [0, 2], [0, 0], [0, 0]]),
+           ("halves: purely imaginary overlap i/2, unit columns 4x2", np.stack([a, b], axis=1)),
+           ("halves: real overlap, unit columns 4x2", np.stack([a, np.array([0.5, 0.5, 0.5, -0.5])], axis=1)),
+           ("int duplicate column 4x2", np.stack([e4[0], e4[0]], axis=1)), ("int column [1,1,0,0] 4x1", [[1], [1], [0], [0]]),
+           ("int vector [1,1,0,0] 1-D", [1, 1, 0, 0]), ("int vector [0,0,0,0] 1-D", [0, 0, 0, 0]), ("int column [1,1] 2x1", [[1], [1]]),
+           ("int shear 2x2", [[1, 1], [0, 1]]), ("int last column doubled 8x2", np.stack([e8[5], 2 * e8[0]], axis=1)),
+           ("int last column doubled 8x4", np.stack([e8[5], e8[0], e8[3], 2 * e8[6]], axis=1)),
+           ("int middle column doubled 8x4", np.stack([e8[5], 2 * e8[0], e8[3], e8[6]], axis=1)),
+           ("int first column zero 8x4", np.stack([0 * e8[5], e8[0], e8[3], e8[6]], axis=1)),
+           ("int lower-right block shear only 8x8", _blk(np.eye(6), np.array([[1.0, 1.0], [0.0, 1.0]]))),
+           ("2i times isometry 4x2", 2j * e4[:, :2]), ("all-negative -2 isometry 4x2", -2 * e4[:, :2]),
+           ("shape int 2x4 wide", e4[:2]), ("shape int 4x8 wide", e8[:4]), ("shape int 4x3", e4[:, :3]), ("shape int eye3", np.eye(3)),
+           ("shape int 6x2", np.eye(6)[:, :2]), ("shape int 2x3", np.eye(3)[:2]), ("shape int 1-D len3", [0, 1, 0]),
+           ("shape int 1-D len6", [0, 1, 0, 0, 0, 0]), ("shape int 1-D len12", [0] * 11 + [1]), ("shape int 8x3", e8[:, :3]),
+           ("shape int 1x2", [[1, 0]]), ("shape int 4x4x1", e4.reshape(4, 4, 1)),
+           ("valid int 4x2", e4[:, :2]), ("valid int permuted columns 4x2", e4[:, [2, 0]]), ("valid halves 4x2", np.stack([a, c], axis=1)),
+           ("valid int column 4x1", e4[:, 2:3]), ("valid int vector 1-D len4", e4[2]), ("valid halves vector 1-D len4", c),
+           ("valid int 8x2", np.stack([e8[5], e8[0]], axis=1)), ("valid int 8x4", np.stack([e8[5], e8[0], e8[3], e8[6]], axis=1)),
+           ("valid int 2x1", [[0], [1]]), ("valid int X 2x2", [[0, 1], [1, 0]]), ("valid int CNOT 4x4", e4[[0, 1, 3, 2]]),
+           ("valid i times isometry 4x2", 1j * e4[:, :2]), ("valid -1 times isometry 4x2", -e4[:, :2])]
+    return [(l, np.array(m, dtype=complex)) for l, m in out]
+
+
+def div_matrix_scaled(ctx, nprng):
+    """defect of the Gram matrix carried by ONE column / pair / block, at sizes 1e-2 and 1e-4 (10x and 1000x the diagonal tolerance,
+    1e4 x / 1e6 x the off-diagonal one); -> {"unitary": [...], "isometry": [...], "u2": [...]}"""
+    import numpy as np
+    out = {"unitary": [], "isometry": [], "u2": [], "u2-mcu": []}
+    for n in (4, 8):
+        U = _haar(n, nprng)
+        m = ctx.rng.randrange(1, n - 1)
+        for d in (1e-2, -1e-2, 1e-4, -1e-4):
+            for j, nm in ((0, "first"), (m, "middle"), (n - 1, "last")):
+                out["unitary"].append((f"column norm^2 1{d:+g} {nm} column {n}x{n}", _apply_right(U, "diag", j, d)))
+            out["unitary"].append((f"row norm^2 1{d:+g} middle row {n}x{n}", _apply_left(U, "diag", m, d)))
+        for t in (1e-2, 1e-4):
+            for (i, j), nm in (((m - 1, m), "adjacent"), ((0, n - 1), "first-last")):
+                for imag in (True, False):
+                    out["unitary"].append((f"{'imaginary' if imag else 'real'} overlap {t:g} {nm} pair, unit diagonal {n}x{n}", _overlap_cols(U, i, j, t, imag)))
+        B = _haar(2, nprng)
+        for d in (1e-2, 1e-4):
+            out["unitary"].append((f"lower-right 2x2 block scaled 1{d:+g} only {n}x{n}", _blk(_haar(n - 2, nprng), B * math.sqrt(1 + d))))
+        out["unitary"].append((f"one row times 2 {n}x{n}", _apply_left(U, "diag", m, 3.0)))
+        out["unitary"].append((f"|det|=1 non-unitary {n}x{n}", U @ np.diag([2.0, 0.5] + [1.0] * (n - 2))))
+        out["unitary"].append((f"valid times 1.1i {n}x{n}", 1.1j * U))
+        out["unitary"].append((f"all-negative real non-orthogonal {n}x{n}", -np.abs(np.real(U)) - 0.1))
+        out["unitary"].append((f"valid times i {n}x{n}", 1j * U))
+        out["unitary"].append((f"valid real orthogonal times -1 {n}x{n}", -np.linalg.qr(nprng.standard_normal((n, n)))[0]))
+    U16 = _haar(16, nprng)
+    out["unitary"].append(("column norm^2 1+0.01 last column 16x16", _apply_right(U16, "diag", 15, 1e-2)))
+    out["unitary"].append(("imaginary overlap 0.01 first-last pair 16x16", _overlap_cols(U16, 0, 15, 1e-2, True)))
+    for (r, c) in ((4, 2), (8, 2), (8, 4), (8, 8), (4, 4)):
+        V = _haar(r, nprng)[:, :c]
+        m = c // 2
+        for d in (1e-2, -1e-2, 1e-4, -1e-4):
+            for j, nm in sorted({(0, "first"), (m, "middle"), (c - 1, "last")}):
+                out["isometry"].append((f"column norm^2 1{d:+g} {nm} column {r}x{c}", _apply_right(V, "diag", j, d)))
+        for t in (1e-2, 1e-4):
+            for (i, j), nm in sorted({((max(m - 1, 0), max(m, 1)), "adjacent"), ((0, c - 1), "first-last")}):
+                for imag in (True, False):
+                    out["isometry"].append((f"{'imaginary' if imag else 'real'} overlap {t:g} {nm} pair, unit diagonal {r}x{c}", _overlap_cols(V, i, j, t, imag)))
+        out["isometry"].append((f"one row times 3 {r}x{c}", _apply_left(V, "diag", r - 1, 8.0)))
+        out["isometry"].append((f"valid times 1.1i {r}x{c}", 1.1j * V))
+        out["isometry"].append((f"valid times i {r}x{c}", 1j * V))
+        out["isometry"].append((f"valid real isometry times -1 {r}x{c}", -np.linalg.qr(nprng.standard_normal((r, r)))[0][:, :c]))
+    for key in ("u2", "u2-mcu"):
+        a, b = sorted((ctx.rng.uniform(0.3, 1.4), ctx.rng.uniform(1.6, 3.0)))
+        V = _haar(2, nprng)
+        S = V @ np.diag([np.exp(1j * a), np.exp(1j * b)]) @ np.conj(V.T) if key == "u2-mcu" else V / np.sqrt(np.linalg.det(V))
+        t0 = ctx.rng.uniform(0.3, 1.2)
+        R = np.array([[math.cos(t0), -math.sin(t0)], [math.sin(t0), math.cos(t0)]])
+        for d in (1e-2, -1e-2, 1e-4, -1e-4):
+            for j, nm in ((0, "first"), (1, "second")):
+                out[key].append((f"row norm^2 1{d:+g} {nm} row", _apply_left(S, "diag", j, d)))
+                out[key].append((f"real rotation: row norm^2 1{d:+g} {nm} row", _apply_left(R, "diag", j, d).real))
+        for t in (1e-2, 1e-4):
+            for imag in (True, False):
+                out[key].append((f"{'imaginary' if imag else 'real'} row overlap {t:g}, unit diagonal", _overlap_cols(S.T, 0, 1, t, imag).T))
+        out[key] += [("valid times 1.1i", 1.1j * S), ("valid times -1.1", -1.1 * S), ("real rotation times -1.1", -1.1 * R),
+                     ("|det|=1 non-unitary", np.diag([2.0, 0.5]) @ S), ("valid real rotation", R), ("valid real rotation times -1", -R),
+                     ("valid times i", 1j * S), ("valid times exp(0.3i)", np.exp(0.3j) * S)]
+    return out
+
+
+# ---------------------------------------------------------------------------------------------- call forms
+
+DIV_DENSE_OPTS = {
+    "TopDownInitialize": {"global_phase": False, "lib": "qiskit"},
+    "LowRankInitialize": {"lr": 1, "iso_scheme": "knill", "unitary_scheme": "csd", "partition": [0], "svd": "regular"},
+    "UCGInitialize": {"target_state": 1, "preserve_previous": True},
+    "UCGEInitialize": {"target_state": 1, "preserve_previous": True},
+    "IsometryInitialize": {"scheme": "csd"},
+    "BaaLowRankInitialize": {"max_fidelity_loss": 0.1, "iso_scheme": "knill", "unitary_scheme": "csd", "strategy": "brute_force",
+                             "max_combination_size": 1, "use_low_rank": True},
+}
+DIV_HOSTS = ("exact", "perm-int", "perm-qubit", "reg-slice")
+
+
+def _div_classes():
+    from qclib.state_preparation import (TopDownInitialize, LowRankInitialize, SVDInitialize, UCGInitialize, UCGEInitialize,
+                                         IsometryInitialize, BaaLowRankInitialize)
+    from qclib.state_preparation.blackbox import BlackBoxInitialize
+    from qclib.gates.ldmcu import Ldmcu
+    from qclib.gates.ldmcsu import Ldmcsu, LdMcSpecialUnitary
+    from qclib.gates.qdmcu import Qdmcu
+    from qclib.gates.mcg import Mcg
+    from qclib.gates.mcu import MCU
+    from qclib.gates.multitargetmcsu2 import MultiTargetMCSU2
+    return {c.__name__: c for c in (TopDownInitialize, LowRankInitialize, SVDInitialize, UCGInitialize, UCGEInitialize, IsometryInitialize,
+                                    BaaLowRankInitialize, BlackBoxInitialize, Ldmcu, Ldmcsu, LdMcSpecialUnitary, Qdmcu, Mcg, MCU,
+                                    MultiTargetMCSU2)}
+
+
+def div_dense_calls(short):
+    opts = DIV_DENSE_OPTS.get(short)
+    calls = ["ctor", "ctor-label", "after-valid"] + [f"static:{h}" for h in DIV_HOSTS] + ["static-pos:perm-int"]
+    if opts is not None:
+        sels = ["none", "empty", "full"] + [f"only-{k}" for k in opts]
+        calls += [f"ctor-opt:{s}" for s in sels] + ["ctor-opt-pos:full", "reuse-dict"]
+        calls += [f"static:perm-int+opt:{s}" for s in sels] + ["static:exact+opt:full", "static:perm-qubit+opt:full", "static:reg-slice+opt:full",
+                                                               "static-pos:perm-int+opt:full"]
+    return calls
+
+
+def _div_sel(short, sel):
+    full = DIV_DENSE_OPTS[short]
+    if sel == "none":
+        return None
+    if sel == "empty":
+        return {}
+    if sel == "full":
+        return {k: (list(v) if isinstance(v, list) else v) for k, v in full.items()}
+    k = sel[len("only-"):]
+    return {k: (list(full[k]) if isinstance(full[k], list) else full[k])}
+
+
+def _div_host(host, width):
+    """-> (circuit, qubit argument, expected qubit objects in order)"""
+    from qiskit import QuantumCircuit, QuantumRegister
+    if host == "exact":
+        qc = QuantumCircuit(width)
+        return qc, None, list(qc.qubits)
+    if host == "reg-slice":
+        p, q = QuantumRegister(1, "p"), QuantumRegister(width + 1, "q")
+        qc = QuantumCircuit(q, p)                         # registers in the other order than they were created
+        sl = q[1:width + 1]
+        return qc, sl, list(sl)
+    a, b = QuantumRegister(2, "a"), QuantumRegister(width + 1, "b")
+    qc = QuantumCircuit(a, b)
+    pool = list(range(width + 3))
+    idx = (pool[1::2][::-1] + pool[0::2])[:width]          # non-ascending, non-contiguous: [3, 1], [5, 3, 1], ...
+    if host == "perm-int":
+        return qc, idx, [qc.qubits[i] for i in idx]
+    if host == "perm-qubit":
+        return qc, [qc.qubits[i] for i in idx], [qc.qubits[i] for i in idx]
+    raise ValueError(host)
+
+
+def _div_len(obj):
+    try:
+        return len(obj)
+    except TypeError:
+        return 2
+
+
+def _div_make_dense(short, call, obj):
+    """-> (thunk, host circuit or None, expected qubits or None, [caller-owned objects besides obj])"""
+    import numpy as np
+    cls = _div_classes()[short]
+    has_opt = short in DIV_DENSE_OPTS
+    n = max(1, int(math.ceil(math.log2(max(_div_len(obj), 2)))))
+    width = n + (1 if short == "BlackBoxInitialize" else 0)
+    if call == "ctor":
+        return (lambda: cls(obj)), None, None, []
+    if call == "ctor-label":
+        return (lambda: cls(obj, label="div")), None, None, []
+    if call == "after-valid":
+        def thunk():
+            cls([0.0, 1.0, 0.0, 0.0])                      # a valid construction first: validation has no memory
+            return cls(obj)
+        return thunk, None, None, []
+    if call.startswith("ctor-opt:"):
+        o = _div_sel(short, call.split(":", 1)[1])
+        return (lambda: cls(obj, opt_params=o)), None, None, [o]
+    if call.startswith("ctor-opt-pos:"):
+        o = _div_sel(short, call.split(":", 1)[1])
+        return (lambda: cls(obj, None, o)), None, None, [o]
+    if call == "reuse-dict":
+        o = _div_sel(short, "full")
+
+        def thunk():
+            cls([0.0, 1.0, 0.0, 0.0], opt_params=o)        # the SAME dict object, edited between the two constructions
+            first = next(iter(DIV_DENSE_OPTS[short]))
+            keep = o[first]
+            o.clear()
+            o[first] = keep
+            return cls(obj, opt_params=o)
+        return thunk, None, None, []
+    if call.startswith("static"):
+        positional = call.startswith("static-pos:")
+        spec = call.split(":", 1)[1]
+        host, _, sel = spec.partition("+opt:")
+        qc, qarg, expect = _div_host(host, width)
+        o = _div_sel(short, sel) if sel else None
+        if positional:
+            if has_opt:
+                return (lambda: cls.initialize(qc, obj, qarg, o)), qc, expect, [o]
+            return (lambda: cls.initialize(qc, obj, qarg)), qc, expect, []
+        if sel:
+            return (lambda: cls.initialize(qc, obj, qubits=qarg, opt_params=o)), qc, expect, [o]
+        if qarg is None:
+            return (lambda: cls.initialize(qc, obj)), qc, expect, []
+        return (lambda: cls.initialize(qc, obj, qubits=qarg)), qc, expect, []
+    raise ValueError(call)
+
+
+DIV_GOOD = [[math.cos(0.4), -math.sin(0.4)], [math.sin(0.4), math.cos(0.4)]]
+DIV_U2_HELPER = {"Ldmcu": "ldmcu", "Ldmcsu": "ldmcsu", "LdMcSpecialUnitary": "ldmcsu", "Qdmcu": "qdmcu", "Mcg": "mcg", "MCU": "mcu"}
+
+
+def div_u2_calls(short, valid):
+    if short == "MultiTargetMCSU2[list]":
+        return ["list:0/1", "list:0/2", "list:1/2", "list:0/3", "list:1/3", "list:2/3", "list-kw:1/3:cs=101", "static-list:0/2", "static-list:1/2",
+                "static-list:1/3:qubit", "static-list:2/3:reg:cs=010"]
+    if short == "MultiTargetMCSU2[single]":
+        return ["single:k0", "single:k1", "single:k3", "single:k5", "single-kw:k3:cs=101", "static-single:perm-int", "static-single:qubit:cs=101",
+                "static-single:reg"]
+    if short == "MCU":
+        calls = ["ctor:k8", "ctor-kw:k8:e0.01", "ctor:k9:e0.5:cs=111111111", "ctor:k8:cs=10101010", "static:perm-int:e0", "static:perm-int:e0.1",
+                 "static:qubit:e0.1:cs=11110000", "static:reg:e0:cs=101"]
+        return calls if valid else calls + ["ctor:k0", "ctor:k1", "ctor:k2", "ctor:k3", "ctor:k5"]
+    calls = ["ctor:k0", "ctor:k1", "ctor:k2", "ctor:k3", "ctor:k5", "ctor-kw:k3", "ctor:k3:cs=000", "ctor:k3:cs=101", "ctor:k3:cs=111",
+             "ctor:k3:cs-pos=101", "static:perm-int", "static:qubit", "static:reg", "static:perm-int:cs=101", "static:qubit:cs=000", "static:reg:cs=111"]
+    if short == "Mcg":
+        calls += ["ctor:k3:utd", "ctor:k3:cs=101+utd", "ctor:k0:utd"]
+    return calls
+
+
+def _div_gate_host(style, k, targets=1):
+    """controls (k) and target(s) on a larger host: -> (circuit, controls, target argument, expected qubits)"""
+    from qiskit import QuantumCircuit, QuantumRegister
+    if style == "reg":
+        t, c, idle = QuantumRegister(targets, "t"), QuantumRegister(k, "c"), QuantumRegister(2, "idle")
+        qc = QuantumCircuit(idle, t, c)
+        tg = t[0] if targets == 1 else list(t)
+        return qc, c, tg, list(c) + list(t)
+    qc = QuantumCircuit(QuantumRegister(2, "a"), QuantumRegister(k + targets + 1, "b"))
+    pool = list(range(k + targets + 3))
+    idx = (pool[1::2][::-1] + pool[0::2])[:k + targets]
+    cidx, tidx = idx[:k], idx[k:]
+    if style == "qubit":
+        cq, tq = [qc.qubits[i] for i in cidx], [qc.qubits[i] for i in tidx]
+        return qc, cq, (tq[0] if targets == 1 else tq), cq + tq
+    return qc, cidx, (tidx[0] if targets == 1 else tidx), [qc.qubits[i] for i in cidx + tidx]
+
+
+def _div_tag(call, key, default=None):
+    for part in call.replace("+", ":").split(":"):
+        if part.startswith(key):
+            return part[len(key):]
+    return default
+
+
+def _div_make_u2(short, call, obj):
+    import numpy as np
+    C = _div_classes()
+    good = np.array(DIV_GOOD)
+    cs = _div_tag(call, "cs=")
+    if short.startswith("MultiTargetMCSU2"):
+        MT = C["MultiTargetMCSU2"]
+        head = call.split(":")[0]
+        if head in ("list", "list-kw", "static-list"):
+            pos, ln = (int(x) for x in call.split(":")[1].split("/"))
+            lst = [good.copy() for _ in range(ln)]
+            lst[pos] = obj
+            if head == "list":
+                return (lambda: MT(lst, 3, ln)), None, None, [lst]
+            if head == "list-kw":
+                return (lambda: MT(unitaries=lst, num_controls=3, num_target=ln, ctrl_state=cs)), None, None, [lst]
+            style = "qubit" if ":qubit" in call else ("reg" if ":reg" in call else "perm-int")
+            qc, ctl, tg, expect = _div_gate_host(style, 3, ln)
+            tg = tg if isinstance(tg, list) else [tg]
+            return (lambda: MT.multi_target_mcsu2(qc, lst, ctl, tg, ctrl_state=cs)), qc, expect, [lst]
+        if head in ("single", "single-kw"):
+            k = int(_div_tag(call, "k"))
+            if head == "single":
+                return (lambda: MT(obj, k, 1)), None, None, []
+            return (lambda: MT(unitaries=obj, num_controls=k, num_target=1, ctrl_state=cs)), None, None, []
+        style = call.split(":")[1]
+        qc, ctl, tg, expect = _div_gate_host(style, 3, 1)
+        return (lambda: MT.multi_target_mcsu2(qc, obj, ctl, tg, ctrl_state=cs)), qc, expect, []
+    cls = C[short]
+    head = call.split(":")[0]
+    if head in ("ctor", "ctor-kw"):
+        k = int(_div_tag(call, "k"))
+        utd = "utd" in call.replace("+", ":").split(":")
+        cspos = _div_tag(call, "cs-pos=")
+        if short == "MCU":
+            err = float(_div_tag(call, "e", "0.1"))
+            if head == "ctor-kw":
+                return (lambda: cls(unitary=obj, num_controls=k, error=err, ctrl_state=cs)), None, None, []
+            if cs is not None:
+                return (lambda: cls(obj, k, err, cs)), None, None, []
+            return (lambda: cls(obj, k, err)), None, None, []
+        if head == "ctor-kw":
+            return (lambda: cls(unitary=obj, num_controls=k)), None, None, []
+        if cspos is not None:
+            return (lambda: cls(obj, k, cspos)), None, None, []
+        kw = {}
+        if cs is not None:
+            kw["ctrl_state"] = cs
+        if utd:
+            kw["up_to_diagonal"] = True
+        return (lambda: cls(obj, k, **kw)), None, None, []
+    if head == "static":
+        style = call.split(":")[1]
+        helper = getattr(cls, DIV_U2_HELPER[short])
+        if short == "MCU":
+            err = float(_div_tag(call, "e"))
+            k = 8 if err > 0 else 3
+            if cs is not None and len(cs) != k:
+                cs = (cs * k)[:k]
+            qc, ctl, tg, expect = _div_gate_host(style, k)
+            if cs is None:
+                return (lambda: helper(qc, obj, ctl, tg, err)), qc, expect, []
+            return (lambda: helper(qc, obj, ctl, tg, err, ctrl_state=cs)), qc, expect, []
+        qc, ctl, tg, expect = _div_gate_host(style, 3)
+        if cs is None:
+            return (lambda: helper(qc, obj, ctl, tg)), qc, expect, []
+        return (lambda: helper(qc, obj, ctl, tg, ctrl_state=cs)), qc, expect, []
+    raise ValueError(call)
+
+
+DIV_UNITARY_CALLS = ["u", "u:pos:qsd", "u:kw:csd", "u:kw:qr", "u:iso1", "u:iso2", "u:a2off", "u:all-pos", "u:all-kw", "u:csd+iso2",
+                     "u:qr+iso1+a2off", "cnot:exact", "cnot:exact:csd+iso1"]
+DIV_ISO_CALLS = ["d", "d:pos:ccd", "d:kw:csd", "d:kw:knill", "d:pos:knill", "d:pos:csd", "cnot:exact:ccd", "cnot:exact:csd"]
+
+
+def _div_make_fn(kind, call, obj):
+    from qclib import unitary as umod, isometry as imod
+    if kind == "unitary":
+        table = {"u": lambda: umod.unitary(obj), "u:pos:qsd": lambda: umod.unitary(obj, "qsd"),
+                 "u:kw:csd": lambda: umod.unitary(obj, decomposition="csd"), "u:kw:qr": lambda: umod.unitary(obj, decomposition="qr"),
+                 "u:iso1": lambda: umod.unitary(obj, iso=1), "u:iso2": lambda: umod.unitary(obj, iso=2),
+                 "u:a2off": lambda: umod.unitary(obj, apply_a2=False), "u:all-pos": lambda: umod.unitary(obj, "qsd", 1, False),
+                 "u:all-kw": lambda: umod.unitary(gate=obj, decomposition="csd", iso=1, apply_a2=False),
+                 "u:csd+iso2": lambda: umod.unitary(obj, "csd", iso=2), "u:qr+iso1+a2off": lambda: umod.unitary(obj, "qr", 1, apply_a2=False),
+                 "cnot:exact": lambda: umod.cnot_count(obj, method="exact"),
+                 "cnot:exact:csd+iso1": lambda: umod.cnot_count(obj, "csd", "exact", 1, False)}
+    else:
+        table = {"d": lambda: imod.decompose(obj), "d:pos:ccd": lambda: imod.decompose(obj, "ccd"),
+                 "d:kw:csd": lambda: imod.decompose(obj, scheme="csd"), "d:kw:knill": lambda: imod.decompose(isometry=obj, scheme="knill"),
+                 "d:pos:knill": lambda: imod.decompose(obj, "knill"), "d:pos:csd": lambda: imod.decompose(obj, "csd"),
+                 "cnot:exact:ccd": lambda: imod.cnot_count(obj, "ccd", "exact"),
+                 "cnot:exact:csd": lambda: imod.cnot_count(obj, scheme="csd", method="exact")}
+    return table[call], None, None, []
+
+
+def _div_make(name, call, obj):
+    kind = KIND_OF[name]
+    short = _short(name)
+    if kind == "dense":
+        return _div_make_dense(short, call, obj)
+    if kind == "u2":
+        return _div_make_u2(short, call, obj)
+    return _div_make_fn(kind, call, obj)
+
+
+# ---------------------------------------------------------------------------------------------- evaluation
+
+def _div_validation_frames(frames):
+    return _in_validation(frames) or any(f[1] == "validate_parameter" for f in frames)
+
+
+def _div_eval(ctx, name, call, form, label, arr):
+    """`_div_eval_inner` with a safety net: an exception of the HARNESS itself (not of the call under test, which is caught inside)
+    must neither look like a violation nor end the run; it is counted and noted (the count is 0 on the unchanged tree)."""
+    try:
+        return _div_eval_inner(ctx, name, call, form, label, arr)
+    except Exception as e:              # pragma: no cover
+        import traceback
+        ctx.count("diversity:HARNESS-EXCEPTION")
+        _note(ctx, ("div-harness", type(e).__name__), f"diversity harness exception at {_short(name)} {call} {form} {label}: "
+                                                      f"{type(e).__name__}: {e} | {traceback.format_exc().splitlines()[-3:]}")
+        return False
+
+
+def _div_eval_inner(ctx, name, call, form, label, arr):
+    """One (entry point, call form, element-type form, numeric content): run the REAL call, judge reject / accept."""
+    import numpy as np
+    kind = KIND_OF[name]
+    short = _short(name)
+    raw = isinstance(arr, tuple) and arr[0] == "RAW"
+    if raw:
+        obj, cls, num = arr[1], "malformed:ragged", None
+    else:
+        num = np.asarray(arr)
+        obj = _div_form(num, form)
+        if obj is None:
+            return False
+        cls = classify(kind, num) if num.size or kind == "dense" else "malformed:empty"
+        if cls == "band":
+            ctx.count("skipped-band")
+            return False
+    thunk, host, expect, watched = _div_make(name, call, obj)
+    watched = [obj] + list(watched)
+    before = [_div_snap(w) for w in watched]
+    ret, exc, frames = None, None, []
+    with warnings.catch_warnings():
+        warnings.simplefilter("ignore")
+        with np.errstate(all="ignore"):
+            try:
+                ret = thunk()
+            except BaseException as e:             # incl. pyo3's PanicException
+                if isinstance(e, (KeyboardInterrupt, SystemExit, GeneratorExit)):
+                    raise
+                exc = e
+                # (traceback frames are only needed to tell validation from construction code for VALID twins)
+                frames = _qclib_frames(e) if not cls.startswith("malformed") else []
+    ename = type(exc).__name__ if exc is not None else None
+    key = f"div:{short}:{call}:{form}:{label}"
+    rep = {"probe": "diversity", "entry": name, "call": call, "form": form, "label": label, "classification": cls,
+           "input": ({"raw": repr(arr[1])} if raw else _payload(num)),
+           "observed": (f"raised {ename}: {str(exc)[:120]}" if exc is not None else f"returned {type(ret).__name__}")}
+    callfam = call.split(":")[0].split("+")[0]
+    ctx.count(f"diversity:call:{kind}:{callfam}")
+    bad = False
+    # the caller's objects are never written to
+    after = [_div_snap(w) for w in watched]
+    if after != before:
+        bad = True
+        which = "input" if after[0] != before[0] else "options / list"
+        ctx.fail(f"caller-object-mutated:{key}", f"{short} via {call}: the caller's {which} object was modified by the call "
+                                                  f"(form {form}, {label})", rep)
+    if cls.startswith("malformed"):
+        if exc is not None:
+            ctx.count(f"diversity:element-type:{kind}:{form}:rejected-{ename}")
+            if host is not None and len(host.data) != 0:
+                bad = True
+                ctx.fail(f"host-modified:{key}", f"{short} via {call} raised {ename} for a malformed input ({cls}, {label}, form {form}) but left "
+                                                f"{len(host.data)} instruction(s) on the caller's circuit", rep)
+            if not bad:
+                ctx.ok(f"rejected:{key}", sample={"entry": short, "call": call, "form": form, "input": label, "decision": "reject " + ename})
+            return True
+        # nothing was raised: something came back for a malformed input
+        stage = "returned"
+        from qiskit.circuit import Instruction
+        if isinstance(ret, Instruction):                  # (not hasattr: evaluating the property may raise anything)
+            try:
+                with warnings.catch_warnings():
+                    warnings.simplefilter("ignore")
+                    ret.definition
+                stage = "circuit built"
+            except BaseException as e:
+                if isinstance(e, (KeyboardInterrupt, SystemExit, GeneratorExit)):
+                    raise
+                stage = f"definition-raised {type(e).__name__}: {str(e)[:80]}"
+        rep["stage"] = stage
+        ctx.count(f"diversity:element-type:{kind}:{form}:ACCEPTED")
+        if stage.startswith("definition-raised"):
+            ctx.fail(f"accepted-by-constructor:{key}", f"{short} via {call} accepted a malformed input ({cls}, {label}, element form {form}): a gate was "
+                                                      f"returned; only building .definition raised ({stage})", rep)
+        else:
+            extra = f"; the host circuit now holds {len(host.data)} instruction(s)" if host is not None else ""
+            ctx.fail(f"accepted:{key}", f"{short} via {call} accepted a malformed input ({cls}, {label}, element form {form}) and returned "
+                                       f"{type(ret).__name__} ({stage}){extra}", rep)
+        return True
+    # ---- valid twin: validation must let it through
+    if exc is not None:
+        msg = str(exc)
+        inval = _div_validation_frames(frames)
+        supported = _div_supported(name, form)
+        su2_only = short.startswith("LdMcSpecialUnitary") and "Operator must be in SU(2)" in msg
+        mcu_domain = short == "MCU" and isinstance(exc, (ValueError, OverflowError)) and ("number of" in msg or isinstance(exc, OverflowError))
+        knill_small = kind == "isometry" and "knill" in call and "Knill decomposition does not work" in msg
+        if su2_only:
+            with np.errstate(all="ignore"):
+                d = abs(np.linalg.det(num) - 1.0)
+            if d > 1e-6:
+                ctx.count(f"diversity:sign-phase:su2-only class rejects det != 1:{form}")
+                ctx.ok(f"su2-rejected:{key}")
+            else:
+                ctx.fail(f"valid-rejected:{key}", f"{short} via {call} rejected an SU(2) matrix ({label}, form {form}): {ename}: {msg[:100]}", rep)
+        elif mcu_domain or knill_small:
+            ctx.count("documented-restriction")
+            ctx.ok(f"restricted:{key}", nontrivial=False)
+        elif not inval:
+            ctx.count("valid-construction-raised")
+            ctx.count(f"diversity:valid twin passed validation, construction raised {ename}:{kind}:{form}")
+            ctx.ok(f"valid-accepted:{key}", nontrivial=False)
+        elif not supported and isinstance(exc, (AttributeError, TypeError)):
+            ctx.count(f"diversity:{kind}:{short.split('[')[0]}:{form}:unsupported-form-raises-{ename}")
+            ctx.ok(f"unsupported-form:{key}", nontrivial=False)
+        else:
+            ctx.fail(f"valid-rejected:{key}", f"validation of {short} via {call} rejected a VALID input ({label}, element form {form}): "
+                                             f"{ename}: {msg[:120]} (raised in {frames[-1] if frames else '?'})", rep)
+        return True
+    ctx.count(f"diversity:element-type:{kind}:{form}:accepted")
+    if short.startswith("LdMcSpecialUnitary") and num is not None and num.shape == (2, 2):
+        with np.errstate(all="ignore"):
+            d = abs(np.linalg.det(num) - 1.0)
+        if d > 1e-6:
+            ctx.fail(f"su2-accepted:{key}", f"{short} via {call} accepted a U(2) matrix with det != 1 ({label}, form {form}, |det - 1| = {d:.3g}); the "
+                                           f"class raises 'Operator must be in SU(2)' for such matrices in its other call forms", rep)
+            return True
+    elif short.split("[")[0] in ("Ldmcsu", "MultiTargetMCSU2") and num is not None and num.shape == (2, 2):
+        with np.errstate(all="ignore"):
+            if abs(np.linalg.det(num) - 1.0) > 1e-6:
+                ctx.count(f"diversity:sign-phase:observed {short.split('[')[0]} accepts U(2) with det != 1 (check_su2 result unused)")
+    if host is not None:
+        inst = host.data
+        ok_host = len(inst) == 1 and list(inst[0].qubits) == list(expect)
+        if kind == "dense" and len(inst) == 1 and len(expect) != len(inst[0].qubits):
+            ok_host = False
+        if not ok_host:
+            got = [list(i.qubits) for i in inst][:2]
+            ctx.fail(f"host-placement:{key}", f"{short} via {call} on a valid input ({label}, form {form}): expected exactly one instruction on "
+                                             f"{expect}, the host holds {len(inst)}: {got}", rep)
+            return True
+        ctx.count(f"diversity:call:{kind}:placed on the listed qubits in the listed order")
+    if not bad:
+        ctx.ok(f"valid-accepted:{key}", nontrivial=(num is not None and num.size >= 2))
+    return True
+
+
+def _div_entries(kind):
+    return [n for n in KIND_OF if KIND_OF[n] == kind]
+
+
+def div_float32_inexact(ctx):
+    """A float32 vector normalised in float32 arithmetic: its exact (up-cast) squared norm is off by ~1e-9 .. 1e-8, i.e. it is neither
+    inside the tolerance nor grossly wrong.  Acceptable: ValueError from the constructor, or a gate whose definition builds and
+    prepares the up-cast state to 1e-5, or (observed, noted) the documented ValueError raised late by .definition.  Not acceptable: any other
+    exception type, a prepared state further than 1e-5 from the up-cast input."""
+    import numpy as np
+    from qiskit.quantum_info import Statevector
+    C = _div_classes()
+    v32 = (np.array([1.0, 2.0, 3.0, 4.0]) / math.sqrt(30.0)).astype(np.float32)
+    up = v32.astype(np.float64)
+    ideal = up / np.linalg.norm(up)
+    for name in _div_entries("dense"):
+        short = _short(name)
+        key = f"div:{short}:ctor:f32-inexact:[1,2,3,4]/sqrt(30) as float32"
+        rep = {"probe": "diversity-f32", "entry": name}
+        ctx.count("diversity:element-type:dense:f32-inexact")
+        with warnings.catch_warnings():
+            warnings.simplefilter("ignore")
+            try:
+                g = C[short](v32.copy())
+            except ValueError:
+                ctx.count("diversity:element-type:dense:f32-inexact:rejected-ValueError")
+                ctx.ok(f"rejected:{key}")
+                continue
+            except Exception as e:
+                ctx.fail(f"undocumented-exception:{key}", f"{short}(float32 vector) raised {type(e).__name__}: {str(e)[:100]}", rep)
+                continue
+            try:
+                circ = g.definition
+                sv = Statevector(circ).data
+            except ValueError as e:
+                # the documented rejection, only late (the inner LowRankInitialize of BaaLowRankInitialize re-validates the
+                # complex128 copy at 1e-10): observed, not judged -- float32 data is a reduced-precision form
+                ctx.count(f"diversity:element-type:dense:f32-inexact:{short} returned a gate, .definition raised the documented ValueError")
+                _note(ctx, ("f32-late", short), f"float32 form: {short}(np.float32([1,2,3,4]/sqrt(30))) returns a gate (the norm test is evaluated in "
+                      f"float32: sum = {float(sum(np.absolute(v32) ** 2))!r}; exact squared norm - 1 = {float(np.sum(up ** 2)) - 1.0:.3g}); building "
+                      f".definition then raises ValueError: {str(e)[:80]}")
+                ctx.ok(f"late-documented-rejection:{key}", nontrivial=False)
+                continue
+            except Exception as e:
+                ctx.fail(f"undocumented-exception:{key}", f"{short}(np.float32([1,2,3,4]/sqrt(30))) returned a gate, building .definition raised "
+                                                          f"{type(e).__name__}: {str(e)[:100]}", rep)
+                continue
+        if short == "BlackBoxInitialize":
+            ctx.count("diversity:element-type:dense:f32-inexact:accepted")
+            ctx.ok(f"accepted:{key}", nontrivial=False)        # probabilistic preparation on n+1 qubits: C09's observable
+            continue
+        err = float(np.abs(sv * np.exp(-1j * np.angle(np.vdot(ideal, sv))) - ideal).max())
+        if err > 1e-5:
+            ctx.fail(f"wrong-state:{key}", f"{short}(float32 vector) was accepted and prepares a state {err:.3g} away from the up-cast input", rep)
+        else:
+            ctx.count("diversity:element-type:dense:f32-inexact:accepted")
+            ctx.ok(f"accepted:{key}")
+
+
+def _div_forms_for(kind, num):
+    import numpy as np
+    forms = list(DIV_FORMS)
+    if kind == "dense" or np.asarray(num).ndim != 2:
+        forms.remove("rows-of-arrays")
+    return forms
+
+
+DIV_LIST_LIKE = ("list", "int-list", "npscalar-list", "npint-list", "pybool-list", "mixed-list", "rows-of-arrays")
+
+
+def run_diversity(ctx, tie=True):
+    """the whole diversity pass (both tiers); `tie=False` from `search`"""
+    import numpy as np
+    nprng = ctx.nprng()
+    callers = _entry_callers(None)
+    dense_exact = div_dense_exact()
+    dense_scaled = div_dense_scaled(ctx, nprng)
+    dense_nonfinite = div_dense_nonfinite(ctx)
+    mats = div_matrix_scaled(ctx, nprng)
+    exact = {"u2": div_u2_exact(), "unitary": div_unitary_exact(), "isometry": div_iso_exact()}
+    # ---- (a) numeric content -> tie + oracle through the plain constructor / function, every variant
+    content = {"dense": [(l, np.array(v, dtype=complex)) for l, v in dense_exact] + dense_scaled + dense_nonfinite,
+               "unitary": exact["unitary"] + mats["unitary"], "isometry": exact["isometry"] + mats["isometry"],
+               "u2": exact["u2"] + mats["u2"], "u2-mcu": [(l, m) for l, m in exact["u2"] if "identity" not in l or not l.startswith("valid")] + mats["u2-mcu"]}
+    for name, variants in callers.items():
+        kind = KIND_OF[name]
+        key = "u2-mcu" if name.endswith(":MCU") else kind
+        for variant, _ in variants:
+            for label, A in content[key]:
+                A = np.asarray(A)
+                if kind == "isometry" and A.ndim > 2:
+                    continue
+                if kind in ("unitary", "isometry") and variant in ("qr", "knill") and A.shape[0] > 4 and classify(kind, A) == "valid":
+                    continue
+                if kind == "unitary" and A.shape[0] > 4 and variant.startswith("qsd+iso") and classify(kind, A) == "valid":
+                    continue
+                check_case(ctx, callers, name, variant, "div:" + label, A, tie=tie)
+    for fam, n in (("scale:dense defect carried by a light tail", sum("light tail" in l for l, _ in dense_scaled)),
+                   ("scale:dense defect in one entry (heaviest / first / last)", sum("entry only" in l for l, _ in dense_scaled)),
+                   ("scale:matrix defect in one column / row / pair / block", sum(len(v) for v in mats.values())),
+                   ("sign-phase:dense all-negative / imaginary / times 1.1i / times -1.1", sum(("times" in l or "negative" in l or "imaginary" in l) for l, _ in dense_scaled)),
+                   ("nonfinite:NaN / inf by position and kind", len(dense_nonfinite)),
+                   ("size:16x16 invalid unitary", sum("16x16" in l for l, _ in content["unitary"]))):
+        ctx.count("diversity:" + fam, n)
+    # ---- (b) element types: exact content x every form, plain call
+    plain = {"dense": "ctor", "unitary": "u", "isometry": "d"}
+    for name in KIND_OF:
+        kind, short = KIND_OF[name], _short(name)
+        if kind == "dense":
+            items = [(l, np.array(v, dtype=complex)) for l, v in dense_exact]
+            items += [x for x in dense_nonfinite if "len4" in x[0] or ("len2" in x[0] and "nan" in x[0])]
+            items += [x for x in dense_scaled if ("light tail" in x[0] and "len16" in x[0] and ("0.0001" in x[0])) or "len4" in x[0]]
+            pcalls = ["ctor"]
+        elif kind == "u2":
+            items = exact["u2"] + [x for x in mats["u2-mcu" if short == "MCU" else "u2"] if "0.0001" not in x[0]]
+            if short == "MCU":
+                items = [x for x in items if not (x[0].startswith("valid") and "identity" in x[0])]
+            pcalls = {"MultiTargetMCSU2[list]": ["list:0/2", "list:2/3"], "MultiTargetMCSU2[single]": ["single:k3"], "MCU": ["ctor:k8"]}.get(short, ["ctor:k3"])
+        else:
+            items = exact[kind] + [x for x in mats[kind] if "4x" in x[0] and "0.0001" not in x[0]]
+            pcalls = [plain[kind]] + (["u:iso1"] if kind == "unitary" else ["d:kw:csd"])
+        for label, num in items:
+            for form in _div_forms_for(kind, num):
+                if short == "MultiTargetMCSU2[single]" and form in DIV_LIST_LIKE:
+                    continue                              # a Python list there MEANS a list of matrices
+                if kind in ("unitary", "isometry") and num.shape[0] >= 8 and label.startswith("valid") and form not in ("c128", "int64", "f32", "list"):
+                    continue                              # (building an 8x8 / 8x4 circuit once per element type is enough)
+                for call in pcalls:
+                    if kind in ("unitary", "isometry") and call != plain[kind] and form not in ("int64", "f64", "list", "c64"):
+                        continue
+                    _div_eval(ctx, name, call, form, label, num)
+        if kind == "dense":
+            for label, obj in div_dense_shapes():
+                for form in (("c128", "list", "f64") if not isinstance(obj, tuple) else ("raw",)):
+                    if _div_eval(ctx, name, "ctor", form, label, obj):
+                        ctx.count("diversity:shape:dense 2-D / 3-D / ragged where a vector is expected")
+    div_float32_inexact(ctx)
+    # ---- (c) call forms: a few inputs x (c128, one integer / real form, list) x every call form of the entry point
+    pick = {
+        "dense": ["int [1,1,0,0]", "int [3,4]", "len3 [1,0,0]", "halves norm 3/4", "valid basis int [0,1,0,0]", "valid signed halves", "valid [0,-1]"],
+        "u2": ["int shear [[1,1],[0,1]]", "int diag(1,2)", "complex-int [[1,i],[i,1]] orthogonal rows norm^2 2", "shape int eye4",
+               "valid int iY", "valid int X", "valid diag(i,-i)", "valid S"],
+        "unitary": ["int lower-right block shear only 4x4", "int last column doubled 8x8", "int last column repeated 8x8", "int diag(1,2) 2x2",
+                    "shape int 4x3", "int last column doubled 16x16", "valid int CNOT 4x4", "valid int Z 2x2", "valid halves H(x)H 4x4"],
+        "isometry": ["int shear 4x2", "halves: purely imaginary overlap i/2, unit columns 4x2", "int last column doubled 8x4", "int vector [1,1,0,0] 1-D",
+                     "shape int 4x8 wide", "valid int 4x2", "valid halves vector 1-D len4", "valid halves 4x2"],
+    }
+    extra = {"dense": [x for x in dense_scaled if ("light tail" in x[0] and "len16" in x[0] and "0.0001" in x[0])]
+             + [x for x in dense_nonfinite if x[0] in ("nan at the last entry len4", "0+nanj at the first entry len4")]
+             + [x for x in dense_scaled if x[0] in ("valid times 1.1i len4", "defect -0.0001 in the last entry only len4", "valid times -1 len4")],
+             "u2": [], "unitary": [x for x in mats["unitary"] if x[0] in ("imaginary overlap 0.01 first-last pair, unit diagonal 8x8",
+                                                                          "lower-right 2x2 block scaled 1+0.01 only 8x8")],
+             "isometry": [x for x in mats["isometry"] if x[0] in ("column norm^2 1-0.01 last column 8x4",)]}
+    for name in KIND_OF:
+        kind, short = KIND_OF[name], _short(name)
+        src = {"dense": [(l, np.array(v, dtype=complex)) for l, v in dense_exact], "u2": exact["u2"], "unitary": exact["unitary"],
+               "isometry": exact["isometry"]}[kind]
+        items = [x for x in src if x[0] in pick[kind]] + (extra[kind] if short != "MCU" else [])
+        if kind == "u2" and short != "MCU":
+            items += [x for x in mats["u2"] if x[0] in ("row norm^2 1-0.01 second row", "imaginary row overlap 0.01, unit diagonal", "valid times exp(0.3i)")]
+        if short == "MCU":
+            items += [x for x in mats["u2-mcu"] if x[0] in ("row norm^2 1-0.01 second row", "imaginary row overlap 0.01, unit diagonal", "valid times i")]
+        for label, num in items:
+            valid = classify(kind, num) == "valid"
+            if kind == "dense":
+                calls = div_dense_calls(short)
+            elif kind == "u2":
+                calls = div_u2_calls(short, valid)
+            else:
+                calls = DIV_UNITARY_CALLS if kind == "unitary" else DIV_ISO_CALLS
+            forms = ["c128"] + [f for f in ("int64", "f64") if _div_form(num, f) is not None][:1] + ["list"]
+            for call in calls:
+                if valid and kind in ("unitary", "isometry") and call.startswith("cnot") and num.shape[0] > 4:
+                    continue
+                for form in forms:
+                    if short == "MultiTargetMCSU2[single]" and form in DIV_LIST_LIKE:
+                        continue
+                    if valid and kind in ("unitary", "isometry") and form != "c128" and (call.startswith("cnot") or "knill" in call or "qr" in call):
+                        continue
+                    if kind == "dense" and call.startswith("static") and form in ("int64", "f64") and "+opt:full" not in call:
+                        continue                          # static helpers: complex128 and list forms (+ the integer / real form with every option)
+                    if valid and form == "list" and short.startswith("UCG") and call.startswith("static") and "+opt:full" not in call:
+                        continue                          # (these helpers build the definition of a valid twin: once per call form)
+                    _div_eval(ctx, name, call, form, label, num)
+    ctx.notes.append("input-diversity pass: invalid inputs and their valid twins in every element-type form (complex128 / float64 / int64 / float32 / "
+                     "complex64 / bool arrays, negative zeros, lists, int lists, tuples, lists of numpy scalars, mixed lists) and through every call "
+                     "form (options None / {} / each key / full, static helpers on larger hosts with permuted qubit lists as ints / Qubits / "
+                     "register slices, num_controls 0..5, ctrl_state, iso / scheme / decomposition / apply_a2, cnot_count exact); float32 / "
+                     "complex64 forms only for exactly representable values (plus one inexactly normalised float32 vector, judged by outcome)")
+
+
 def _order_failures(ctx):
     """report first an input for which a circuit really came back, then constructor-level acceptances"""
     blatant = ("eye3", "scaled2", "shear-det1", "len3", "zero", "wide", "norm+0.5", "unitary3x3")
@@ -1886,6 +2929,7 @@ def run(ctx):
     mixed_boundary(ctx)
     side_probes(ctx)
     non_numeric_probe(ctx)
+    run_diversity(ctx, tie=True)
     _order_failures(ctx)
     ctx.notes.append("boundary values: every tolerance is approached to a factor 3 from both sides with all other checks passing; nothing is "
                      "generated inside (tol/3, 3*tol): norm (3.3e-11, 3e-10), Gram entry (3.3e-9, 3e-8) off the diagonal and "
@@ -1911,6 +2955,7 @@ def search(ctx, hints):
             check_case(ctx, callers, op["name"], variant, "from-tie-diff", A, tie=False)
     run_stream(ctx, tie=False)
     mixed_boundary(ctx)
+    run_diversity(ctx, tie=False)
     _order_failures(ctx)
 
 
@@ -1921,6 +2966,16 @@ def replay(ctx, payload):
         return
     if r.get("probe") == "mixed-boundary":
         mixed_boundary(ctx)
+        return
+    if r.get("probe") == "diversity-f32":
+        div_float32_inexact(ctx)
+        return
+    if r.get("probe") == "diversity":
+        if "raw" in r["input"]:
+            raw = dict((l, o) for l, o in div_dense_shapes() if isinstance(o, tuple))
+            _div_eval(ctx, r["entry"], r["call"], r["form"], r["label"], raw[r["label"]])
+        else:
+            _div_eval(ctx, r["entry"], r["call"], r["form"], r["label"], _from_payload(r["input"]))
         return
     callers = _entry_callers(None)
     A = _from_payload(r["input"])
